@@ -117,6 +117,9 @@ func (s *Session) Consume(p Pack) {
 	defer buffers.Put(buf)
 	p2 := p.(*rtsp.RTPPack)
 	p2.Write(buf, s.transport.Channels[:])
+	if buf.Len() == 0 { // 该通道未订阅，没有数据；不发送空消息
+		return
+	}
 
 	var err error
 	s.lockW.Lock()
